@@ -130,6 +130,38 @@ func sortPairs(l [][2]string) [][2]string {
 	return out
 }
 
+// selections of outputs under which the filters are exercised end to end
+var c16TargetSets = []struct {
+	name string
+	gen  codegen.GenerateOptions
+}{
+	{"models", codegen.GenerateOptions{Models: true}},
+	{"models", codegen.GenerateOptions{Models: true}},
+	{"models+embedded-spec", codegen.GenerateOptions{Models: true, EmbeddedSpec: true}},
+	{"client", codegen.GenerateOptions{Client: true}},
+	{"client+models", codegen.GenerateOptions{Client: true, Models: true}},
+	{"chi+models", codegen.GenerateOptions{ChiServer: true, Models: true}},
+	{"std-http+strict+models+embedded-spec", codegen.GenerateOptions{StdHTTPServer: true, Strict: true, Models: true, EmbeddedSpec: true}},
+	{"gin", codegen.GenerateOptions{GinServer: true}},
+	{"fiber+strict+models", codegen.GenerateOptions{FiberServer: true, Strict: true, Models: true}},
+	{"embedded-spec", codegen.GenerateOptions{EmbeddedSpec: true}},
+}
+
+// diffStrings returns the elements of a that are not in b.
+func diffStrings(a, b []string) []string {
+	in := map[string]bool{}
+	for _, x := range b {
+		in[x] = true
+	}
+	var out []string
+	for _, x := range a {
+		if !in[x] {
+			out = append(out, x)
+		}
+	}
+	return out
+}
+
 func runC16(r *Report, rng *rand.Rand, nHook, nE2E int) {
 	cases := NewCases("cases_C16", "From V Require Import Model.Prune Model.Filter Corr.Eval.",
 		"filter_cfg * doc * (list string * list (string * string) * list string)", "mismatches_prepare")
@@ -230,6 +262,32 @@ func runC16(r *Report, rng *rand.Rand, nHook, nE2E int) {
 				r.Violate("router_registrations", fmt.Sprintf("%d routes registered, filter keeps %d operations", regs, len(wantNames)), replay)
 			}
 		}
+		if e2e {
+			// every selection of outputs: what is generated under the filter declares exactly what is generated, without any
+			// filter, from the document whose removed operations were taken out by hand (the statement's own filter)
+			ts := c16TargetSets[rng.Intn(len(c16TargetSets))]
+			fcfg := cfgOf(cfg)
+			fcfg.Generate = ts.gen
+			ncfg := cfgOf(gendoc.FilterCfg{SkipPrune: cfg.SkipPrune})
+			ncfg.Generate = ts.gen
+			got, err1 := generate(data, fcfg)
+			ref, err2 := generate(gendoc.SpecFilter(d, cfg).JSON(), ncfg)
+			r.Dist["targets="+ts.name]++
+			if (err1 == nil) != (err2 == nil) {
+				r.Violate("filtered_generation_differs", fmt.Sprintf("targets %s: generation under the filter: %v; generation from the document filtered by hand: %v", ts.name, err1, err2), replay)
+			} else if err1 == nil {
+				pg, e1 := parseGo(got)
+				pr, e2 := parseGo(ref)
+				if e1 == nil && e2 == nil {
+					if g, w := pg.declNames(), pr.declNames(); !eqStrings(g, w) {
+						r.Violate("filtered_generation_differs", fmt.Sprintf("targets %s: declarations under the filter differ from those of the document filtered by hand: only under the filter %v, only by hand %v", ts.name, diffStrings(g, w), diffStrings(w, g)), replay)
+					}
+					if got == ref {
+						r.Dist["filtered_generation_byte_equal"]++
+					}
+				}
+			}
+		}
 		paths, ops, comps := observedPrepared(d, root)
 		cases.Add(preparedCase(cfg, d, paths, ops, comps), replay)
 		r.AddDist(map[string]int{"positions_total": len(dist)})
@@ -261,5 +319,5 @@ func runC16(r *Report, rng *rand.Rand, nHook, nE2E int) {
 		}
 	}
 	cases.WriteTo(r)
-	r.Rule = "documents x 0-3 tags per operation x include/exclude lists for tags and ids (empty, disjoint, overlapping, unknown names), with and without skip-prune; hook level (filter functions + prune on the loaded document) and end to end (codegen.Generate: ServerInterface / ClientInterface method sets, router registrations, decoded embedded spec); non-trivial = the filter keeps some but not all operations"
+	r.Rule = "documents x 0-3 tags per operation x include/exclude lists for tags and ids (empty, disjoint, overlapping, unknown names), with and without skip-prune; hook level (filter functions + prune on the loaded document) and end to end (codegen.Generate: ServerInterface / ClientInterface method sets, router registrations, decoded embedded spec; under a selection of outputs drawn from ten - models only, client only, single servers, strict, embedded spec only - the declarations generated under the filter equal those generated without filter from the document filtered by hand); non-trivial = the filter keeps some but not all operations"
 }
